@@ -182,21 +182,31 @@ def r_remove_guard(ctx):
             hpay = ("proj", removed, "TileManagerTile::Hash.0")
             drops_d = [e for e in p.events if e.kind == "call" and e.d["fn"] == HM + "remove" and unmut(e.d["args"][0]) == self_field(roles["data"])]
             drops_s = [e for e in p.events if e.kind == "call" and e.d["fn"] == HM + "remove" and unmut(e.d["args"][0]) == self_field(roles["ids"])]
+            # the entry API drops the set through the occupied entry it looked up
+            drops_s += [e for e in p.events if e.kind == "call" and e.d["fn"].endswith("OccupiedEntry::<'a, K, V>::remove") or (e.kind == "call" and e.d["fn"].endswith("OccupiedEntry::<'a, K, V, A>::remove"))
+                        if any(is_call_to(t_, lambda s: s == HM + "entry") and t_[2][0] == self_field(roles["ids"]) for t_ in subterms(unmut(e.d["args"][0])))]
             setrm = [e for e in p.events if e.kind == "call" and e.d["fn"] == HS + "remove"]
+            vacant = any(fct[0] == "variant" and fct[2].endswith("Entry::Occupied") and fct[3] is False for fct, _d in path_facts(p))
             hashed = knows(p, ("variant", removed, HASH_CTOR, True)) is not None
-            if hashed:
+            if hashed and vacant:
+                # no id set exists for this hash: nothing to remove from
+                obs.append(Ob("R-REMOVE-GUARD", fn, "hash-backed tile: id leaves the id set of its hash", not setrm, "no id set for this hash on this path", rel(f["loc"])))
+            elif hashed:
                 ok_set = len(setrm) == 1 and unmut(setrm[0].d["args"][1]) == V("param:tile_id") and any(
                     is_call_to(t, lambda s: s in (HM + "entry", HM + "get_mut")) and t[2][0] == self_field(roles["ids"]) and t[2][1] == hpay for t in subterms(unmut(setrm[0].d["args"][0])))
                 obs.append(Ob("R-REMOVE-GUARD", fn, "hash-backed tile: id leaves the id set of its hash", ok_set, "id-set removals: %d" % len(setrm), rel(f["loc"])))
             for dr in drops_d + drops_s:
                 n_drop += 1
                 which = "bytes" if dr in drops_d else "id set"
-                key_ok = unmut(dr.d["args"][1]) == hpay
-                guard = bool(setrm) and knows(p, ("empty", unmut(setrm[0].d["args"][0]), True), dr.seq, after=setrm[0].seq) is not None
+                key_ok = (len(dr.d["args"]) > 1 and unmut(dr.d["args"][1]) == hpay) or (len(dr.d["args"]) == 1 and any(
+                    is_call_to(t_, lambda s: s == HM + "entry") and t_[2][1] == hpay for t_ in subterms(unmut(dr.d["args"][0]))))
+                guard = bool(setrm) and _emptiness_known(p, setrm[0], dr)
+                if vacant and not setrm:
+                    guard = True      # there is no id set for this hash: no other id can refer to the bytes
                 obs.append(Ob("R-REMOVE-GUARD", fn, "%s dropped only when the id set became empty (tested after removing this id)" % which, guard and key_ok,
-                              "key = %s; emptiness guard after the id-set removal: %s" % (tstr(unmut(dr.d["args"][1]))[:80], guard), dr.loc()))
+                              "key = %s; emptiness guard after the id-set removal: %s" % (tstr(unmut(dr.d["args"][-1]))[:80], guard), dr.loc()))
             if drops_d or drops_s:
-                obs.append(Ob("R-REMOVE-GUARD", fn, "bytes and id set are dropped together", len(drops_d) == 1 and len(drops_s) == 1, "bytes drops: %d, id-set drops: %d" % (len(drops_d), len(drops_s)), rel(f["loc"])))
+                obs.append(Ob("R-REMOVE-GUARD", fn, "bytes and id set are dropped together", len(drops_d) == 1 and (len(drops_s) == 1 or (vacant and not drops_s)), "bytes drops: %d, id-set drops: %d" % (len(drops_d), len(drops_s)), rel(f["loc"])))
         obs.append(Ob("R-REMOVE-GUARD", fn, "a path that drops unreferenced bytes exists", n_drop > 0, "drop sites on paths: %d" % n_drop, rel(f["loc"])))
     return obs
 
@@ -340,7 +350,14 @@ def r_finish_pair(ctx):
                     mi = [unmut(x) for x in mins[0].d["args"]]
                     ok_ins = mi[0] == hmap and mi[1] == hkey and mi[2] == ("tup", (off, ln))
                     obs.append(Ob("R-FINISH-PAIR", fn, "miss: the same (offset, length) remembered under the same key in the probed map", ok_ins, "insert(%s, %s)" % (tstr(mi[1])[:60], tstr(mi[2])[:80]), mins[0].loc()))
-                obs.append(Ob("R-COUNTERS", fn, "miss: two distinct counters move by one", len(incs) == 2 and len(addr_inc) == 2 and len(set(e.d["var"] for e in incs)) == 2, "increments: %d" % len(incs), pu.loc()))
+                v_ = unmut(p.value)
+                fr_ = v_[2][0] if is_call_to(v_, lambda s: s == "core::result::Result::Ok") and v_[2] else None
+                ntc_ = struct_field(fr_, "num_tile_content") if fr_ is not None and fr_[0] == "struct" else None
+                derived = _is_len_of(ntc_, hmap)
+                two = len(incs) == 2 and len(addr_inc) == 2 and len(set(e.d["var"] for e in incs)) == 2
+                one_plus_len = len(incs) == 1 and len(addr_inc) == 1 and derived
+                obs.append(Ob("R-COUNTERS", fn, "miss: the addressed-tiles counter and the content count both advance by one", two or one_plus_len,
+                              "increments: %d; num_tile_content derived from the dedup table's size: %s" % (len(incs), derived), pu.loc()))
             # result fields by role
             v = unmut(p.value)
             fr = v[2][0] if is_call_to(v, lambda s: s == "core::result::Result::Ok") and v[2] else None
@@ -360,7 +377,7 @@ def r_finish_pair(ctx):
                 (var, val), = moved.items()
                 obs.append(Ob("R-COUNTERS", fn, "num_addressed_tiles = counter incremented once per entry push", struct_field(fr, "num_addressed_tiles") == val, "num_addressed_tiles = %s" % tstr(struct_field(fr, "num_addressed_tiles"))[:80], rel(f["loc"])))
                 ntc = struct_field(fr, "num_tile_content")
-                ok_c = isinstance(ntc, tuple) and ntc[0] == "v" and ntc != val[2]
+                ok_c = (isinstance(ntc, tuple) and ntc[0] == "v" and ntc != val[2]) or (_is_len_of(ntc, hmap) and not mins)
                 obs.append(Ob("R-COUNTERS", fn, "num_tile_content does not move on a dedup hit", ok_c, "num_tile_content = %s" % tstr(ntc)[:80], rel(f["loc"])))
             if not hit and len(moved) == 2:
                 vals = set(moved.values())
@@ -372,6 +389,14 @@ def r_finish_pair(ctx):
                 obs.append(Ob("R-COUNTERS", fn, "data = the buffer the contents were appended to", ok_dat, "data = %s" % tstr(dat)[:60], rel(f["loc"])))
         obs.append(Ob("R-FINISH-PAIR", fn, "both dedup arms present", arms == {"hit", "miss"}, "arms: %s" % sorted(arms), rel(f["loc"])))
     return obs
+
+
+def _is_len_of(t, container):
+    """t is `container.len()` (possibly cast), for the same container variable in any mutation version"""
+    t = unmut(t) if t is not None else None
+    while isinstance(t, tuple) and t and t[0] == "cast":
+        t = t[2]
+    return isinstance(t, tuple) and t and t[0] == "call" and t[1] == "len" and unmut(t[2][0]) == unmut(container)
 
 
 def _same_root(a, b):
@@ -611,6 +636,8 @@ def r_hash_noleak(ctx):
         for p in fa.paths:
             for e in p.events:
                 if e.kind == "call":
+                    if e.d.get("inlined"):
+                        continue      # the helper's own uses of the value are on this path
                     for i, a in enumerate(e.d["args"]):
                         a = unmut(a)
                         if _is_hash_value(a, hf):
@@ -736,3 +763,20 @@ def r_add_offset(ctx):
             obs.append(Ob("R-ADD-OFFSET", fn, "length 0 refuted before the insert", g, "guard found: %s" % g, rel(f["loc"])))
         obs.append(Ob("R-ADD-OFFSET", fn, "length 0 ⇒ Err without mutation", bool(errs) and all(not mutations(p, roles) for p in errs), "error exits: %d" % len(errs), rel(f["loc"])))
     return obs
+
+
+def _set_of(t):
+    """the id-set object a term denotes, through entry-API accessors"""
+    t = unmut(t)
+    while is_call_to(t, lambda s: s.endswith(("::get_mut", "::get", "::into_mut", "::or_default", "::as_mut", "::as_ref"))) and t[2]:
+        t = unmut(t[2][0])
+    return t
+
+
+def _emptiness_known(p, setrm_ev, drop_ev):
+    """after the id was removed from the set, and before the drop, the set was found empty (in any spelling, through any accessor of the same entry)"""
+    target = _set_of(setrm_ev.d["args"][0])
+    for fct, d in path_facts(p, drop_ev.seq, after=setrm_ev.seq):
+        if fct[0] == "empty" and fct[2] is True and _set_of(fct[1]) == target:
+            return True
+    return False
